@@ -21,7 +21,7 @@ def main():
     if prop in ("C01", "C05", "C07"):
         from tx import subst
         obs += subst.obligations(prop)
-    if prop in ("C03", "C09", "C10"):
+    if prop in ("C03", "C04", "C09", "C10"):
         # declarations, initialisations and identifiers are collected by passes: they are complete only if every class presents every
         # part to a pass (the V contracts of all classes, whichever property the class case was written for)
         seen = {o["id"] for o in obs}
@@ -31,7 +31,7 @@ def main():
                     if o["id"].startswith("V/") and o["id"] not in seen:
                         seen.add(o["id"])
                         obs.append(dict(o, id="traversal/" + o["id"], finding_key=o.get("finding_key", o["id"])))
-    if prop in ("C03", "C05", "C06", "C10", "C11"):
+    if prop in ("C03", "C04", "C05", "C06", "C10", "C11"):
         from tx import pipeline
         obs += pipeline.obligations()
     json.dump(dict(obligations=obs), sys.stdout, ensure_ascii=False)
